@@ -34,9 +34,12 @@ fn main() {
     let header = format!("package {};\n", pool["package"].as_str().unwrap());
     // the packages a document may refer to: the library and the WIT packages of the pool
     let mut pkg_bytes: Vec<(String, Vec<u8>)> = lib.pkgs.values().map(|p| (p.name.clone(), p.bytes.clone())).collect();
-    for (name, text) in pool["wit_packages"].as_object().unwrap() {
+    for (name, p) in pool["wit_packages"].as_object().unwrap() {
+        if !p["version"].is_null() {
+            continue; // versioned WIT packages are only referred to by C11's target worlds
+        }
         let mut resolve = wit_parser::Resolve::new();
-        let id = resolve.push_str(format!("{name}.wit"), text.as_str().unwrap()).expect("wit package parses");
+        let id = resolve.push_str(format!("{name}.wit"), p["text"].as_str().unwrap()).expect("wit package parses");
         pkg_bytes.push((name.clone(), wit_component::encode(&resolve, id).expect("wit package encodes")));
     }
     let so = std::io::stdout();
